@@ -125,7 +125,10 @@ func (r *Reliable) initiate(req bool) {
 	}
 
 	r.l.Lock()
-	if r.tubeState != initiated {
+	// The peer's next frame may be handled before this goroutine runs and move
+	// the tube past initiated (its FIN takes it to closeWait): the sender is
+	// still needed then, or nothing this end queues is ever sent
+	if r.tubeState == created || r.tubeState == closed {
 		r.l.Unlock()
 		return
 	}
